@@ -37,6 +37,9 @@ for p in sorted(glob.glob(os.path.join(ROOT, "seeded", "*", "meta.json"))):
     m = json.load(open(p)); name = os.path.basename(os.path.dirname(p))
     r = m.get("check_result", "")
     res = "not run"
+    if m.get("obsolete"):
+        r = ""
+        res = "obsolete on the current tree (was caught on the tree it was made for; see note)"
     if "VIOLATION" in r:
         res = "caught: VIOLATION" + (" (no-failing-input-found)" if "no-failing-input-found" in r else " with failing input")
     elif "no-violation" in r:
